@@ -157,33 +157,33 @@ type dRun struct {
 	prodG sync.Map // goid -> producer index
 
 	// verdicts
-	sameID        string // consecutive deliveries of one id (livelock detection)
-	sameN         int
-	Livelock      string // set when the wrapped writer was offered the same message >= 2000 times in a row
-	ProducerSpin  string // set when a producer reports >= 1000 collisions for one and the same claimed position
-	spinArg       map[int64]uint64
-	spinN         map[int64]int
-	StallState    string // "", "parked", "polling", "inconclusive"
-	StallDump     string
-	MidRunStall   bool // the stall was observed in the middle of a paced single-producer run
-	Quiesced      bool
-	ProducersHung string
-	CloseHung     string
-	emptyPolls    int64
-	lastConsumer  int32 // last consumer-side point index
-	readIndex     uint64
-	maxClaimed    int64 // -1 = none
-	nClaimed      int64
-	cancelBcast   int32
-	attempts      map[int64]int // per producer goroutine: loaded/collision/casfailed events since its last diode.write.copied
-	cancelSeen    bool
+	sameID            string // consecutive deliveries of one id (livelock detection)
+	sameN             int
+	Livelock          string // set when the wrapped writer was offered the same message >= 2000 times in a row
+	ProducerSpin      string // set when a producer reports >= 1000 collisions for one and the same claimed position
+	spinArg           map[int64]uint64
+	spinN             map[int64]int
+	StallState        string // "", "parked", "polling", "inconclusive"
+	StallDump         string
+	MidRunStall       bool // the stall was observed in the middle of a paced single-producer run
+	Quiesced          bool
+	ProducersHung     string
+	CloseHung         string
+	emptyPolls        int64
+	lastConsumer      int32 // last consumer-side point index
+	readIndex         uint64
+	maxClaimed        int64 // -1 = none
+	nClaimed          int64
+	cancelBcast       int32
+	attempts          map[int64]int // per producer goroutine: loaded/collision/casfailed events since its last diode.write.copied
+	cancelSeen        bool
 	entersAfterCancel int64
-	consumerDone  bool
-	IgnoresCancel string // set when the consumer keeps calling TryNext long after cancellation
-	WritePanic    string
-	wrappedClosed int64 // clock value of the wrapped writer's Close (0 = not called)
-	wrappedCloses int32
-	closeRets     int32
+	consumerDone      bool
+	IgnoresCancel     string // set when the consumer keeps calling TryNext long after cancellation
+	WritePanic        string
+	wrappedClosed     int64 // clock value of the wrapped writer's Close (0 = not called)
+	wrappedCloses     int32
+	closeRets         int32
 }
 
 var curRun atomic.Value // *dRun
